@@ -483,6 +483,13 @@ func convToBasicNumber(source interface{}, target reflect.Type) (interface{}, er
 				f = nearest
 			}
 		}
+		if target.Kind() == reflect.Float32 && v.IsFinite() {
+			// straight to the nearest float32: rounding the nearest float64 again rounds twice
+			// (1.0000000596046447753906251 arrived as 1 instead of 1.0000001)
+			if nearest, err := strconv.ParseFloat(v.String(), 32); err == nil {
+				return float32(nearest), nil
+			}
+		}
 		switch target.Kind() {
 		case reflect.Int8:
 			return int8(f), nil
